@@ -38,6 +38,13 @@ func (x *c07Real) One(a int) int   { return -(x.r*1000 + a) }
 func (x *c07Real) two(a int) int   { return -(x.r*1000 + a) }
 func (x *c07Real) Three(a int) int { return -(x.r*1000 + a) }
 
+type c07W interface {
+	Wide(a1, a2, a3, a4, a5, a6, a7, a8, a9, a10, a11 int) int
+}
+type c07WReal struct{}
+
+func (*c07WReal) Wide(a1, a2, a3, a4, a5, a6, a7, a8, a9, a10, a11 int) int { return -1 }
+
 type c07Tag struct {
 	k, h int
 	pad  [2]int
@@ -48,9 +55,9 @@ var c07CurHist int64
 
 type c07Var struct {
 	name string
-	ptr  interface{}   // &variable
-	typ  reflect.Type  // interface type
-	meth []string      // method names in itab order
+	ptr  interface{}  // &variable
+	typ  reflect.Type // interface type
+	meth []string     // method names in itab order
 	call func(m int, a int) int
 	get  func() interface{}
 	key  int // model key under the CURRENT builder cache rule (type string): same for same type
@@ -83,6 +90,32 @@ func c07(args []string) int {
 	for h := from; h < n; h++ {
 		rng := hxlib.NewRng(c.seed*1000003 + uint64(h))
 		c07History(h, rng, out)
+	}
+	// ---- a method with more argument words than the stub may disturb: every argument must arrive unchanged
+	{
+		var w c07W = &c07WReal{}
+		b := mocker.Create()
+		var seen []int
+		rec := map[string]interface{}{"kind": "wide"}
+		func() {
+			defer func() {
+				if e := recover(); e != nil {
+					rec["panic"] = trunc(fmt.Sprint(e), 100)
+				}
+			}()
+			b.Interface(&w).Method("Wide").Apply(func(ctx *mocker.IContext, a1, a2, a3, a4, a5, a6, a7, a8, a9, a10, a11 int) int {
+				seen = []int{a1, a2, a3, a4, a5, a6, a7, a8, a9, a10, a11}
+				return 1000 + a1 + a11
+			})
+			rec["ret"] = w.Wide(1, 2, 3, 4, 5, 6, 7, 8, 9, 10, 11)
+			rec["seen"] = fmt.Sprint(seen)
+			b.Reset()
+			b.Interface(&w).Method("Wide").As(func(ctx *mocker.IContext, a1, a2, a3, a4, a5, a6, a7, a8, a9, a10, a11 int) int { return 0 }).
+				When(1, 2, 3, 4, 5, 6, 7, 8, 9, 10, 11).Return(77)
+			rec["when_ret"] = w.Wide(1, 2, 3, 4, 5, 6, 7, 8, 9, 10, 11)
+		}()
+		b.Reset()
+		out.Put(rec)
 	}
 	out.Put(map[string]interface{}{"kind": "done", "n": n})
 	return 0
